@@ -111,8 +111,9 @@ def run(ctx) -> list[Inst]:
     fp = Program(FIXTURE)
     fan = Analyzer(fp)
     ff = det_findings(fp, fan, list(fp.all_funcs()))
-    got = sorted((f.short, type(n).__name__) for f, n, _ in ff)
-    if got != [('gen', 'For'), ('gen', 'ListComp'), ('pick', 'Call')]:
+    got = sorted((f.short, 'iter' if type(n).__name__ in ('For', 'ListComp') else type(n).__name__) for f, n, _ in ff)
+    # (the append loop of the fixture is a comprehension after normalisation N17: both spellings count as iteration)
+    if got != [('gen', 'iter'), ('gen', 'iter'), ('pick', 'Call')]:
         raise AnalysisError(f'R10 positive fixture not reproduced (got {got})')
     insts = []
     roots = [prog.func(r) for r in ROOTS]
